@@ -410,6 +410,13 @@ structure Opts where
   sizes : Sizes := {}
 deriving Repr
 
+/-- Size as analyse_fragments reads it (:1063, `max(size.max_strings_in_group, 1)`): at least two strings are kept
+    per fragment whatever the cap says (two are needed to tell a varying fragment from a constant one) -/
+def Sizes.norm (sz : Sizes) : Sizes := { sz with maxStringsInGroup := max sz.maxStringsInGroup 1 }
+
+/-- the options as the code reads them: `extract T o.norm` is what rexpy computes for the options `o` -/
+def Opts.norm (o : Opts) : Opts := { o with sizes := o.sizes.norm }
+
 /-- batch_extract (:667-721) on the cleaned examples: the refined, merged patterns.
     `none` = an internal assertion of the real code would fail. -/
 def batchExtract (T : CharTable) (o : Opts) (cl : Cleaned) : Option (List Pattern × List Char) :=
